@@ -234,6 +234,11 @@ def cases(tier, seed):
   out.append(case('itml_bounds_untouched', c11.zero_bound_case(), FUNCS, 'ITML._fit(bounds=b) with one bound exactly 0: the caller array keeps its 0', cost=2))
   out.append(case('itml_prior_array_untouched', c11.prior_array_untouched_case(), FUNCS, 'ITML with a 1x1 array prior that the projections update', cost=3))
   out.append(case('lsml_weights_untouched', c12.prior_returned_case('array', 1, 2), FUNCS, 'LSML._fit(weights=w): w normalised on a copy', cost=3, validate=4))
+  from checks import c02
+  for (kk, dd) in ((1, 2), (2, 2)):
+    out.append(case('handed_out_metric_function_k%d_d%d' % (kk, dd), c02.closure_independent('Covariance', kk, dd), FUNCS,
+                    'get_metric() / get_mahalanobis_matrix() taken from a symbolic fitted state, then the state is overwritten in place, replaced by a '
+                    'transformation of another dimensionality, and the returned matrix zeroed: the hand-outs are unaffected', cost=2))
   for pk in ('array', 'callable'):
     out.append(case('preprocessor_history_%s' % pk, c05.prepare_case('ITML', 2, 1, pk), FUNCS,
                     'fit-time input preparation, then set_params(preprocessor=other): the next call uses the new preprocessor', cost=3, max_paths=100000))
